@@ -4,6 +4,7 @@ import (
 	"bufio"
 	"bytes"
 	"context"
+	"encoding/json"
 	"errors"
 	"fmt"
 	"io"
@@ -314,7 +315,7 @@ func (multi *MultiEpoch) handleGetBlock(ctx context.Context, conn *requestContex
 					}, fmt.Errorf("failed to encode rewards: %v", err)
 				}
 				var m map[string]any
-				err = fasterJson.Unmarshal(buf, &m)
+				err = jsonKeepNumbers.Unmarshal(buf, &m)
 				if err != nil {
 					return &jsonrpc2.Error{
 						Code:    jsonrpc2.CodeInternalError,
@@ -357,6 +358,11 @@ func (multi *MultiEpoch) handleGetBlock(ctx context.Context, conn *requestContex
 							// if it's a float, convert to int and use rentTypeToString
 							if asFloat, ok := rewardAsMap["rewardType"].(float64); ok {
 								rewardAsMap["rewardType"] = rewardTypeToString(int(asFloat))
+							}
+							if asNumber, ok := rewardAsMap["rewardType"].(json.Number); ok {
+								if asInt, err := asNumber.Int64(); err == nil {
+									rewardAsMap["rewardType"] = rewardTypeToString(int(asInt))
+								}
 							}
 						}
 					}
